@@ -176,7 +176,7 @@ def b_symmetries(ctx):
     from contracts.rainflow_bounded import run, signals, DETECTORS
     from specs.rainflow_spec import TP
     A, N = (4, 6) if ctx.tier == 'quick' else (4, 8)
-    ctx.bound = f"all signals over {{0..{A-1}}} of length 2..{N}; negation; maps 2x+1, 0.5x-3; every single insertion of a non-reversal sample (repeat of a neighbour or midpoint of a strictly monotone step); 4 index types"
+    ctx.bound = f"all signals over {{0..{A-1}}} of length 2..{N}; negation; maps 2x+1, 0.5x-3; scaling by 1e-9 and 1e9; every single insertion of a non-reversal sample (repeat of a neighbour, midpoint of a strictly monotone step, or 5e-9 away from either end of it); 4 index types"
     ctx.rule = "non-trivial: signal with >= 1 turning point; distinct by (signal, transformation)"
     ctx.exhaustive = True
     for s in signals(A, N, 2):
@@ -203,6 +203,16 @@ def b_symmetries(ctx):
                         want[key] = [al * v + be for v in ref[key]]
                     if r != want:
                         ctx.fail(f'C03:affine:{det}', f'{det}: map {al}x+{be} of {list(s)} changes the counting', {'signal': list(s), 'detector': det})
+            # pure positive scaling across magnitudes (all three detectors: the FKM rule compares absolute values, invariant under x -> a x, a > 0);
+            # added after seed C03-b put an absolute tolerance into find_turns
+            for al in (1e-9, 1e9):
+                r, _, _ = run(det, [[al * v for v in x]])
+                ctx.case(nt)
+                want = dict(ref)
+                for key in ('from', 'to', 'residuals'):
+                    want[key] = [al * v for v in ref[key]]
+                if r != want:
+                    ctx.fail(f'C03:scaling:{det}', f'{det}: scaling {list(s)} by {al} changes the counting', {'signal': list(s), 'detector': det, 'scale': al})
             # refinement by one non-reversal sample
             for pos in range(1, len(x) + 1):
                 cands = []
@@ -211,6 +221,9 @@ def b_symmetries(ctx):
                     cands += [lo, hi] if lo != hi else [lo]
                     if lo != hi:
                         cands.append((lo + hi) / 2)
+                        # a sample on the flank only a few 1e-9 away from either end (still strictly between the neighbours)
+                        sg = 1.0 if hi > lo else -1.0
+                        cands += [hi - 5e-9 * sg, lo + 5e-9 * sg]
                 else:
                     cands.append(x[-1])
                 for v in cands:
